@@ -219,6 +219,25 @@ impl Prop for C09 {
                 Some(LineCase::new(text, Expect::NotKind("date".into()), "reject"))
             },
         ));
+        f.push(Family::new(
+            "reject-fractions",
+            Mode::Full,
+            "d/m/y and 'd Month y' in which the day, the month or the year carries a fraction (5,9/1/2021, 1/2,5/2021, 31/12/0,5, 1,5 March 2021, also through a variable 'x = 1,5 / x/2/2020'), for days [1, 5, 28, 31], months [1, 2, 12], years [2020, 2021] and fractions [,5 ,9 ,25]: never accepted as a date",
+            move |ch| {
+                let d = *ch.pick(&[1i64, 5, 28, 31]);
+                let m = *ch.pick(&[1i64, 2, 12]);
+                let y = *ch.pick(&[2020i64, 2021]);
+                let fr = *ch.pick(&[",5", ",9", ",25"]);
+                let text = match ch.choose(5) {
+                    0 => format!("{}{}/{}/{}", d, fr, m, y),
+                    1 => format!("{}/{}{}/{}", d, m, fr, y),
+                    2 => format!("{}/{}/{}{}", d, m, y, fr),
+                    3 => format!("{}{} {} {}", d, fr, month_names("en", m)[0], y),
+                    _ => format!("x = {}{}\nx/{}/{}", d, fr, m, y),
+                };
+                Some(LineCase::new(text, Expect::NotKind("date".into()), "reject-fractions"))
+            },
+        ));
         // arithmetic ------------------------------------------------------------------------
         {
             let bases = base_dates(tier);
